@@ -10,7 +10,8 @@
 //! "set / remove refuse while the substate is open, drop / move refuse while the node has an open substate",
 //! and after every step: `substate_locks.is_locked / node_is_locked`, the handle table, and the *contents* of
 //! all six substates (so a refused operation that nevertheless changed something is seen).
-use mc_core::{bfs, BfsStats, Ctx, Machine};
+use crate::explore::bfs_chunked;
+use mc_core::{BfsStats, Ctx, Machine};
 use radix_common::prelude::*;
 use radix_engine::kernel::call_frame::*;
 use radix_engine::kernel::heap::{Heap, HeapRemovePartitionError};
@@ -591,7 +592,7 @@ impl Machine for L2 {
 }
 
 pub fn explore(ctx: &Ctx, depth: usize, wall_cap_s: f64) -> BfsStats {
-    bfs(ctx, &L2, "L2", depth, 30_000_000, wall_cap_s)
+    bfs_chunked(ctx, &L2, "L2", depth, 30_000_000, wall_cap_s, 10_000)
 }
 
 fn parse_op(s: &str) -> Option<Op> {
